@@ -23,8 +23,12 @@ pub mod c22;
 pub mod c26;
 pub mod c28;
 pub mod c19;
+pub mod c29;
+pub mod c30;
 pub mod c32;
 pub mod c34;
+pub mod c35;
+pub mod c38;
 pub mod c33;
 pub mod c36;
 pub mod c37;
@@ -63,6 +67,11 @@ pub fn all() -> Vec<CheckDef> {
         CheckDef { id: "C33", shards: one, run: c33::run, replay: Some(c33::replay) },
         CheckDef { id: "C19", shards: one, run: c19::run, replay: Some(c19::replay) },
         CheckDef { id: "C34", shards: one, run: c34::run, replay: Some(c34::replay) },
+        CheckDef { id: "C29", shards: one, run: c29::run_c29, replay: Some(c29::replay_c29) },
+        CheckDef { id: "C30", shards: one, run: c30::run, replay: Some(c30::replay) },
+        CheckDef { id: "C31", shards: one, run: c29::run_c31, replay: Some(c29::replay_c31) },
+        CheckDef { id: "C35", shards: one, run: c35::run, replay: Some(c35::replay) },
+        CheckDef { id: "C38", shards: one, run: c38::run, replay: Some(c38::replay) },
         CheckDef { id: "C28", shards: one, run: c28::run, replay: Some(c28::replay) },
     ]
 }
